@@ -2,9 +2,14 @@
 # usage: run.sh <Cnn> [--tier quick|thorough] [--replay file]
 # Rebuilds the checker against /repo's current working tree, then runs it.
 export GOFLAGS=-mod=mod GOPROXY=off GOSUMDB=off GOTOOLCHAIN=local
-export VERIF_ROOT=/verif
 mkdir -p /verif/.build
 out=/verif/.build/vcheck.$$
-( cd /verif/mc && go1.26 build -o "$out" ./cmd/vcheck ) || { echo "vcheck: build failed" >&2; exit 2; }
+ov=/verif/.build/overlay.$$.json
+# add-only overlay: files under /verif/overlay/<rel> appear as /repo/<rel>
+( cd /verif/overlay && printf '{"Replace":{' ; sep=
+  find . -type f -name '*.go' | sort | while read -r f; do f=${f#./}; printf '%s"/repo/%s":"/verif/overlay/%s"' "$sep" "$f" "$f"; sep=,; done
+  printf '}}\n' ) > "$ov"
+( cd /verif/mc && go1.26 build -tags verif -overlay "$ov" -o "$out" ./cmd/vcheck ) || { rm -f "$ov"; echo "vcheck: build failed" >&2; exit 2; }
+rm -f "$ov"
 mv -f "$out" /verif/.build/vcheck-$1
 exec /verif/.build/vcheck-$1 "$@"
